@@ -25,4 +25,10 @@ def jobs(tier):
                                 "bus_context_check_security_policy = symbolic allow/deny", "monitors list empty"],
                          bounds=f"{p} open slots over 3 connections, serials 32-bit, limit 1..INT_MAX; commit/cancel symbolic",
                          shape=f"{names[op]}, {p} slots", cost=1 + p))
+    for p in (1, 2, 3):
+        J.append(Job(name=f"expiry_pass.P{p}", group="C09.expiry", harness="harness/C09_expire.c", defines={"P": p}, real=REAL, env=["assert_stubs.c", "mem.c", "pool_lock.c"],
+                     checks="assert", unwind=6, timeout=600, encodes=["do_expiration_with_monotonic_time"],
+                     stubs=["expire function = ghost counter, may fail at the k-th call", "DBusTimeout = record"],
+                     bounds=f"{p} items, each immediate / 50 s old / 1 s old; timeout infinite or 25 s; now = 100 s; failing call index symbolic",
+                     shape=f"expiry pass over {p} items", cost=p))
     return J
